@@ -77,64 +77,64 @@ fn real_main() {
     match o.prop.as_str() {
         "C19" => {
             rep = Report::new("C19", &o.tier, o.seed, "operand pairs (a,b) of 16 LE bytes; non-trivial = both operands non-zero; distinct by (stream,a,b)");
-            match &replay_lines { Some(l) => c19::replay(&mut drv, &mut rep, l), None => c19::run(&o, &mut drv, &mut rep) }
+            match &replay_lines { Some(l) => c19::replay(&mut drv, &mut rep, l), None => { c19::run(&o, &mut drv, &mut rep); let again = rep.first_ids.clone(); if !again.is_empty() && !matches!(o.prop.as_str(), "C09" | "C10") { rep.hist("purity-probe:first-cases-rerun-at-end"); c19::replay(&mut drv, &mut rep, &again); } } }
         }
         "C07" | "C08" => {
             rep = Report::new(&o.prop, &o.tier, o.seed, "(key p,q in one of four limb configurations, plaintexts, scalar, randomisers) per Paillier operation; every case is one model request; non-trivial = all; distinct by request text");
             let p = o.prop.clone();
-            match &replay_lines { Some(l) => c07::replay(&mut drv, &mut rep, l, &p), None => c07::run(&o, &mut drv, &mut rep, &p) }
+            match &replay_lines { Some(l) => c07::replay(&mut drv, &mut rep, l, &p), None => { c07::run(&o, &mut drv, &mut rep, &p); let again = rep.first_ids.clone(); if !again.is_empty() && !matches!(o.prop.as_str(), "C09" | "C10") { rep.hist("purity-probe:first-cases-rerun-at-end"); c07::replay(&mut drv, &mut rep, &again, &p); } } }
         }
         "C09" | "C10" => {
             rep = Report::new(&o.prop, &o.tier, o.seed, "C09: (curve, scalar x, label, security parameter, RSA key, rng tape) per honest run = prove + verify + decrypt + wire round trip, plus serialised proofs with N slots; C10: one altered byte of a serialised proof / one context substitution / one forged proof of the Lean adversarial prover (strategy, slots, x, label, key, tape); non-trivial = every case (each runs at least 128 slots); distinct by request");
             let p = o.prop.clone();
-            match &replay_lines { Some(l) => c09::replay(&o, &mut drv, &mut rep, l, &p), None => c09::run(&o, &mut drv, &mut rep, &p) }
+            match &replay_lines { Some(l) => c09::replay(&o, &mut drv, &mut rep, l, &p), None => { c09::run(&o, &mut drv, &mut rep, &p); let again = rep.first_ids.clone(); if !again.is_empty() && !matches!(o.prop.as_str(), "C09" | "C10") { rep.hist("purity-probe:first-cases-rerun-at-end"); c09::replay(&o, &mut drv, &mut rep, &again, &p); } } }
         }
         "C11" => {
             rep = Report::new("C11", &o.tier, o.seed, "one call of one untrusted-input entry point (from_bytes/verify/decrypt of sl-verifiable-enc on both curves; serde of Paillier keys/ciphertexts and decrypt/add/mul/message on arbitrary values; base-OT, PPRF, OT-extension and VOLE messages as POD bytes; relay frames and histories of frames; BIP32 root key bytes, u32 paths and path strings) on bytes that are uniformly random, all-00/all-ff, truncated/extended, or a structured mutation of a valid message made by the real code; non-trivial = every case; distinct by the replayable request line");
-            match &replay_lines { Some(l) => c11::replay(&o, &mut drv, &mut rep, l), None => c11::run(&o, &mut drv, &mut rep) }
+            match &replay_lines { Some(l) => c11::replay(&o, &mut drv, &mut rep, l), None => { c11::run(&o, &mut drv, &mut rep); let again = rep.first_ids.clone(); if !again.is_empty() && !matches!(o.prop.as_str(), "C09" | "C10") { rep.hist("purity-probe:first-cases-rerun-at-end"); c11::replay(&o, &mut drv, &mut rep, &again); } } }
         }
         "C12" => {
             rep = Report::new("C12", &o.tier, o.seed, "(root key, chain code, prefix, path of u32 child numbers) per derive_xpub case, plus single derive_child_pubkey steps and Base58 strings; non-trivial = valid root and non-hardened path of 2..=255 components (stream `child`: valid parent, normal index); distinct by request");
-            match &replay_lines { Some(l) => c12::replay(&mut drv, &mut rep, l), None => c12::run(&o, &mut drv, &mut rep) }
+            match &replay_lines { Some(l) => c12::replay(&mut drv, &mut rep, l), None => { c12::run(&o, &mut drv, &mut rep); let again = rep.first_ids.clone(); if !again.is_empty() && !matches!(o.prop.as_str(), "C09" | "C10") { rep.hist("purity-probe:first-cases-rerun-at-end"); c12::replay(&mut drv, &mut rep, &again); } } }
         }
         "C01" | "C02" => {
             rep = Report::new(&o.prop, &o.tier, o.seed, "C01: one honest random-vector-OLE exchange = (variant ext|ot, seed provenance synthetic|pipeline, session id, sender input a in Z_q^2, tapes of both parties); C02: the same plus one alteration of the round-two message (bit flip / overwrite / swap / rotation / splice from another session or run) or one re-derived deviation set (positions J, replacement inputs, guessed bits); non-trivial = every case (each runs the full protocol over 512 OT instances); distinct by scenario line");
             let p = o.prop.clone();
-            match &replay_lines { Some(l) => c01::replay(&mut drv, &mut rep, l, &p), None => c01::run(&o, &mut drv, &mut rep, &p) }
+            match &replay_lines { Some(l) => c01::replay(&mut drv, &mut rep, l, &p), None => { c01::run(&o, &mut drv, &mut rep, &p); let again = rep.first_ids.clone(); if !again.is_empty() && !matches!(o.prop.as_str(), "C09" | "C10") { rep.hist("purity-probe:first-cases-rerun-at-end"); c01::replay(&mut drv, &mut rep, &again, &p); } } }
         }
         "C03" | "C04" => {
             rep = Report::new(&o.prop, &o.tier, o.seed, "C03: one honest SoftSpoken run = (session id, all-but-one seed set with its 64 punctured indices, 512 choice bits, rng tape); C04: the same plus one alteration of the first-round message (bit flip / overwrite / swap / splice) or one re-derived deviation (blocks, difference vectors, guessed indices); non-trivial = every case (each runs the full protocol on 256 seeds x 640 columns); distinct by the full request");
             let p = o.prop.clone();
-            match &replay_lines { Some(l) => c03::replay(&mut drv, &mut rep, l, &p), None => c03::run(&o, &mut drv, &mut rep, &p) }
+            match &replay_lines { Some(l) => c03::replay(&mut drv, &mut rep, l, &p), None => { c03::run(&o, &mut drv, &mut rep, &p); let again = rep.first_ids.clone(); if !again.is_empty() && !matches!(o.prop.as_str(), "C09" | "C10") { rep.hist("purity-probe:first-cases-rerun-at-end"); c03::replay(&mut drv, &mut rep, &again, &p); } } }
         }
         "C13" => {
             rep = Report::new("C13", &o.tier, o.seed, "requests to math.rs functions: factorial_range(s,e), polynomials of degree 0..=24 with evaluation/derivative/commitment/Feldman cases, (point, order) sets for Birkhoff/Lagrange; non-trivial = all; distinct by request text");
-            match &replay_lines { Some(l) => c13::replay(&mut drv, &mut rep, l), None => c13::run(&o, &mut drv, &mut rep) }
+            match &replay_lines { Some(l) => c13::replay(&mut drv, &mut rep, l), None => { c13::run(&o, &mut drv, &mut rep); let again = rep.first_ids.clone(); if !again.is_empty() && !matches!(o.prop.as_str(), "C09" | "C10") { rep.hist("purity-probe:first-cases-rerun-at-end"); c13::replay(&mut drv, &mut rep, &again); } } }
         }
         "C05" => {
             rep = Report::new("C05", &o.tier, o.seed, "scenarios (kind, session ids, tape seeds, spliced instance, encoding) of the Endemic base OT: honest exchanges, different sids, cross-session substitution of message 1/2, special point encodings; non-trivial = non-degenerate tapes; distinct by scenario line");
-            match &replay_lines { Some(l) => c05::replay(&mut drv, &mut rep, l), None => c05::run(&o, &mut drv, &mut rep) }
+            match &replay_lines { Some(l) => c05::replay(&mut drv, &mut rep, l), None => { c05::run(&o, &mut drv, &mut rep); let again = rep.first_ids.clone(); if !again.is_empty() && !matches!(o.prop.as_str(), "C09" | "C10") { rep.hist("purity-probe:first-cases-rerun-at-end"); c05::replay(&mut drv, &mut rep, &again); } } }
         }
         "C06" => {
             rep = Report::new("C06", &o.tier, o.seed, "scenarios (kind, session id, base-OT seed, parameters) of the all-but-one PPRF: honest build/eval, single-bit corruptions, cross-session substitution, adversarial sender grid; distinct by scenario line");
-            match &replay_lines { Some(l) => c06::replay(&mut drv, &mut rep, l), None => c06::run(&o, &mut drv, &mut rep) }
+            match &replay_lines { Some(l) => c06::replay(&mut drv, &mut rep, l), None => { c06::run(&o, &mut drv, &mut rep); let again = rep.first_ids.clone(); if !again.is_empty() && !matches!(o.prop.as_str(), "C09" | "C10") { rep.hist("purity-probe:first-cases-rerun-at-end"); c06::replay(&mut drv, &mut rep, &again); } } }
         }
         "C14" => {
             rep = Report::new("C14", &o.tier, o.seed, "(secret x, base point, transcript context, rng tape) for honest proofs, each followed by 17 single-field / single-bit mutations of (t,s), y, B and the context; non-trivial = x != 0; distinct by request");
-            match &replay_lines { Some(l) => c14::replay(&mut drv, &mut rep, l), None => c14::run(&o, &mut drv, &mut rep) }
+            match &replay_lines { Some(l) => c14::replay(&mut drv, &mut rep, l), None => { c14::run(&o, &mut drv, &mut rep); let again = rep.first_ids.clone(); if !again.is_empty() && !matches!(o.prop.as_str(), "C09" | "C10") { rep.hist("purity-probe:first-cases-rerun-at-end"); c14::replay(&mut drv, &mut rep, &again); } } }
         }
         "C15" | "C16" => {
             rep = Report::new(&o.prop, &o.tier, o.seed, "histories of relay operations (ask / publish frames on 3 connections, service send, clock advance); non-trivial = at least two relay operations; distinct by the full history");
             let p = o.prop.clone();
-            match &replay_lines { Some(l) => c15::replay(&mut drv, &mut rep, l, &p), None => c15::run(&o, &mut drv, &mut rep, &p) }
+            match &replay_lines { Some(l) => c15::replay(&mut drv, &mut rep, l, &p), None => { c15::run(&o, &mut drv, &mut rep, &p); let again = rep.first_ids.clone(); if !again.is_empty() && !matches!(o.prop.as_str(), "C09" | "C10") { rep.hist("purity-probe:first-cases-rerun-at-end"); c15::replay(&mut drv, &mut rep, &again, &p); } } }
         }
         "C17" => {
             rep = Report::new("C17", &o.tier, o.seed, "(script of underlying poll_next results, sequence of recv/wait_for/next calls with poll budgets); non-trivial = script and call sequence both of length >= 2; distinct by (script, calls)");
-            match &replay_lines { Some(l) => c17::replay(&mut drv, &mut rep, l), None => c17::run(&o, &mut drv, &mut rep) }
+            match &replay_lines { Some(l) => c17::replay(&mut drv, &mut rep, l), None => { c17::run(&o, &mut drv, &mut rep); let again = rep.first_ids.clone(); if !again.is_empty() && !matches!(o.prop.as_str(), "C09" | "C10") { rep.hist("purity-probe:first-cases-rerun-at-end"); c17::replay(&mut drv, &mut rep, &again); } } }
         }
         "C20" => {
             rep = Report::new("C20", &o.tier, o.seed, "square matrices over the secp256k1 scalar field given as (n, n*n entries); each case runs determinant and inverse; non-trivial = n >= 2; distinct by (stream, entries)");
-            match &replay_lines { Some(l) => c20::replay(&mut drv, &mut rep, l), None => c20::run(&o, &mut drv, &mut rep) }
+            match &replay_lines { Some(l) => c20::replay(&mut drv, &mut rep, l), None => { c20::run(&o, &mut drv, &mut rep); let again = rep.first_ids.clone(); if !again.is_empty() && !matches!(o.prop.as_str(), "C09" | "C10") { rep.hist("purity-probe:first-cases-rerun-at-end"); c20::replay(&mut drv, &mut rep, &again); } } }
         }
         p => { eprintln!("unknown property {p}"); std::process::exit(2); }
     }
